@@ -17,7 +17,7 @@ def run(ctx, replay):
             if d["ok"] or "Invariant NoTaintInConsensus is violated" not in d["text"]:
                 raise vlib.ToolFailure("vacuity control failed: AppArch deviation %s not caught" % dev)
         ctx.cov["apparch_states"] = r["distinct"]
-    replica.run(ctx, "C07", replay, families=replica.FAMILIES + ["govfee"])
+    replica.run(ctx, "C07", replay, families=replica.FAMILIES + ["govfee", "stakefail"])
     ctx.cov.setdefault("rule", RULE)
 
 
